@@ -52,12 +52,12 @@ def base_queries(tier):
         for (n, s) in splits:
             cost = (12 * n * n if wide else 2 * n)
             qs.append(_q("base/split/%s/n%d_s%d" % (name, n, s), ["H_SPLIT", "N=%d" % n, "S=%d" % s, f], fam="base/split",
-                         core=((n, s) in ((2, 1), (4, 2))), weight=cost, witness=((n, s) in ((2, 1), (4, 2))), timeout=None if quick else 900))
+                         core=((n, s) in ((2, 1), (4, 2))), weight=cost, witness=((n, s) in ((2, 1), (4, 2))), timeout=450 if quick else 900))
     # the *_norm flavours without catalogue entry are tied to their anchored *_refl twins (specification only)
     for fn in (5, 7, 9, 11):
         for n in ((1, 2) if quick else (1, 2, 3, 4)):
             qs.append(_q("base/dual/%s/n%d" % (FNS[fn].replace("_refl", ""), n), ["H_DUAL", "N=%d" % n, "FN=%d" % fn], units=[],
-                         fam="base/dual", core=(n == 1), weight=2))
+                         fam="base/dual", core=(n == 1), weight=2, flags=CADICAL))
     # Adler-32
     A = "FN=13"
     qs.append(_q("base/adler/anchor", ["H_ANCHOR", A], units=ADL, fam="base/adler", witness=False, core=True))
